@@ -280,7 +280,7 @@ func main() {
 	goals := flag.Int("goals", 320, "number of cases flagged for the interval-arithmetic tie to the Coq model")
 	a := lib.ParseArgs()
 	if a.Tier == "thorough" {
-		*goals *= 30
+		*goals *= 15
 	}
 	w, done := a.Output()
 	defer done()
